@@ -572,6 +572,11 @@ def block_run(ctx, ls, nt, env, by_id):
 def run(ctx, cases_override=None):
     lines = cases_override or cases(ctx["tier"], ctx["seed"])
     fails = []
+    # stage 'specrad' (spectral-radius clauses; generates its own cases, replayed lines are routed to it)
+    sr_lines = [l for l in lines if is_specrad_line(l)]
+    lines = [l for l in lines if not is_specrad_line(l)]
+    if cases_override is None: fails += run_specrad(ctx)
+    elif sr_lines: fails += run_specrad(ctx, sr_lines)
     groups = {}
     for l in lines: groups.setdefault(nt_of(l), []).append(l)
     by_id = {l.split(" ", 1)[0]: l for l in lines}
@@ -621,3 +626,294 @@ def run(ctx, cases_override=None):
         ctx["log"].append(("C08 block generators: stored blocks / scalar / diagonal / symmetric; sampled pairs / non-commuting",
                            "%(blocks)d / %(scalar)d / %(diagonal)d / %(symmetric)d; %(pairs)d / %(noncommuting)d" % BSTAT))
     return fails
+
+
+# ================================================================================================
+# Stage "specrad": the two spectral-radius clauses of the property (Properties_C08.v section 7).
+#   power method     estimate^2 <= ||A||_F^2 (exactly: r^2 <= ||A||_F^2 t^2 with t = |last iterate|^2 of the model run
+#                    from the same start vector -- C08_power_oracle_accepts_model; vq::Q / QcS share the floor root on
+#                    the 2^-64 grid, so t is slightly above 1), plus impl-vs-model on more matrices / more sweeps
+#   Gershgorin       estimate >= |lambda| for eigenpairs built by the generator, scalar and block values, both variants
+#                    (C08_gershgorin_eigenpair_oracle_Qc, C08_block_gershgorin_bound(_scaled))
+# Case lines (self-contained, replayable; ids "sr.<k>"):
+#   sr.power <scale> <iters> <crs>                      start vector: the implementation's (op pm_start)
+#   sr.geig  <scale> <nt> <crs> <vec v> <lam>           eigenpair of A (scale=0) / of D^-1 A (scale=1)
+#   sr.bgeig <b> <scale> <nt> <bcrs> <blocks v> <lam>   block eigenpair; v_i = b x b blocks (columns embedded)
+# Oracles: model driver group "specrad" (coq/Extract_specrad.v, ocaml/specrad/ops_specrad.ml).
+SR_OPS = ("sr.power", "sr.geig", "sr.bgeig")
+
+def is_specrad_line(l):
+    sp = l.split(" ", 2)
+    return len(sp) > 1 and sp[1] in SR_OPS
+
+def _mat_inv(Mx):
+    """exact inverse of a small square matrix of Fractions (None if singular)"""
+    n = len(Mx); A = [list(rw) + [F(int(i == j)) for j in range(n)] for i, rw in enumerate(Mx)]
+    for c in range(n):
+        p = next((i for i in range(c, n) if A[i][c] != 0), None)
+        if p is None: return None
+        A[c], A[p] = A[p], A[c]
+        pv = A[c][c]; A[c] = [x / pv for x in A[c]]
+        for i in range(n):
+            if i != c and A[i][c] != 0:
+                f = A[i][c]; A[i] = [x - f * y for x, y in zip(A[i], A[c])]
+    return [rw[n:] for rw in A]
+
+def _dense_to_rows(r, D, keep_zero=0.0, shuffle=False):
+    rows = []
+    for rw in D:
+        es = [(j, x) for j, x in enumerate(rw) if x != 0 or r.random() < keep_zero]
+        if shuffle: r.shuffle(es)
+        rows.append(es)
+    return rows
+
+def _split_dups(r, rows, prob=0.3):
+    """store some entries twice (a = a1 + a2): the dense matrix is unchanged, the Gershgorin sum only grows"""
+    out = []
+    for rw in rows:
+        nw = []
+        for c, x in rw:
+            if r.random() < prob:
+                a1 = gen.rq(r); nw.append((c, a1)); nw.append((c, x - a1))
+            else: nw.append((c, x))
+        out.append(nw)
+    return out
+
+def _sr_eig_similar(r, n):
+    """A = S L S^-1 with rational S: all n eigenpairs (lam_k, S[:,k])"""
+    while True:
+        kind = r.choice(["gen", "upper", "lower", "near_id"])
+        S = [[F(r.randint(-3, 3)) if kind == "gen" or (kind == "upper" and j >= i) or (kind == "lower" and j <= i)
+              else F(0) for j in range(n)] for i in range(n)]
+        if kind == "near_id": S = [[F(int(i == j)) + (F(r.randint(-1, 1), 4) if r.random() < 0.4 else 0) for j in range(n)] for i in range(n)]
+        Si = _mat_inv(S)
+        if Si is not None: break
+    L = [r.choice([F(5), F(-4), F(3), F(7, 2), F(-9, 2), F(1, 2), F(0), F(2), F(-1), F(6)]) for _ in range(n)]
+    A = [[sum(S[i][k] * L[k] * Si[k][j] for k in range(n)) for j in range(n)] for i in range(n)]
+    return A, [(L[k], [S[i][k] for i in range(n)]) for k in range(n)]
+
+def _sr_eig_fit(r, n, scale, small_off):
+    """one eigenpair on an arbitrary sparse pattern: off-diagonal part O and v free, diagonal fitted.
+    returns (rows, v, lam) with rows in storage order (diagonal at a random position), or None"""
+    for _ in range(20):
+        O = gen.rcrs(r, n, n, density=r.choice([0.2, 0.4, 0.7]), sorted_rows=True, dups=False, empty_rows=(not scale))
+        O = [[(c, (x / 4 if small_off else x)) for c, x in rw if c != i and x != 0] for i, rw in enumerate(O)]
+        v = [gen.rq(r, nz=True) for _ in range(n)]
+        Ov = [sum(x * v[c] for c, x in rw) for rw in O]
+        if not scale:
+            lam = r.choice([F(5), F(-6), F(3), F(-7, 2), F(1, 2), F(0), F(9), F(-2)])
+            d = [lam - Ov[i] / v[i] for i in range(n)]
+        else:
+            if n == 1: lam = F(1); d = [gen.rq(r, nz=True)]
+            else:
+                if any(x == 0 for x in Ov): continue
+                lam = F(1) + r.choice([F(1, 4), F(-1, 4), F(1, 2), F(2), F(-3), F(1, 8), F(-5, 2)])
+                d = [Ov[i] / ((lam - 1) * v[i]) for i in range(n)]
+        rows = []
+        for i, rw in enumerate(O):
+            rw = list(rw)
+            if scale and r.random() < 0.25:
+                # the diagonal stored twice: D is the LAST stored one; (d1 + d2) v_i + (Ov)_i = lam d2 v_i
+                d1 = gen.rq(r, nz=True)
+                d2 = None if n == 1 else (Ov[i] + d1 * v[i]) / ((lam - 1) * v[i])
+                if d2 is None or d2 == 0: rw.insert(r.randint(0, len(rw)), (i, d[i]))
+                else:
+                    p1 = r.randint(0, len(rw)); rw.insert(p1, (i, d1)); rw.insert(r.randint(p1 + 1, len(rw)), (i, d2))
+            elif d[i] != 0 or scale or r.random() < 0.5:
+                rw.insert(r.randint(0, len(rw)) if r.random() < 0.5 else sum(1 for c, _ in rw if c < i), (i, d[i]))
+            rows.append(rw)
+        if scale and any(all(c != i for c, _ in rw) for i, rw in enumerate(rows)): continue
+        return rows, v, lam
+    return None
+
+def _bl_vec_block(v, b):
+    """b-vector as the b x b block with that column 0"""
+    return [[v[i] if j == 0 else F(0) for j in range(b)] for i in range(b)]
+
+def _sr_beig_fit(r, b, n, scale, small_off):
+    for _ in range(20):
+        O = bv.rbcrs(r, b, n, n, density=r.choice([0.3, 0.6]), sorted_rows=True, dups=False, empty_rows=(not scale))
+        O = [[(c, (bv.bl_scale(F(1, 4), X) if small_off else X)) for c, X in rw if c != i] for i, rw in enumerate(O)]
+        v = [[gen.rq(r, nz=(k == 0 or r.random() < 0.8)) for k in range(b)] for _ in range(n)]
+        Ov = []
+        for rw in O:
+            acc = [F(0)] * b
+            for c, X in rw: acc = [x + y for x, y in zip(acc, bv.bl_matvec(X, v[c]))]
+            Ov.append(acc)
+        if not scale:
+            lam = r.choice([F(5), F(-6), F(3), F(-7, 2), F(1, 2), F(0), F(9), F(-2)])
+            w = [[lam * v[i][k] - Ov[i][k] for k in range(b)] for i in range(n)]
+        else:
+            if n == 1: lam = F(1); w = None
+            else:
+                if any(all(x == 0 for x in o) for o in Ov): continue
+                lam = F(1) + r.choice([F(1, 4), F(-1, 4), F(1, 2), F(2), F(-3), F(1, 8)])
+                w = [[Ov[i][k] / (lam - 1) for k in range(b)] for i in range(n)]
+        rows = []; ok = True
+        for i, rw in enumerate(O):
+            if w is None: D = bv.rblock_inv(r, b)
+            else:
+                # D v_i = w_i: D = R + (w_i - R v_i) v_i^T / (v_i^T v_i)
+                R = bv.rblock(r, b, r.choice(["gen", "diag", "scalar", "upper"]))
+                vv = sum(x * x for x in v[i]); Rv = bv.bl_matvec(R, v[i])
+                D = [[R[p][q] + (w[i][p] - Rv[p]) * v[i][q] / vv for q in range(b)] for p in range(b)]
+            if scale and bv.bl_det(D) == 0: ok = False; break
+            rw = list(rw); rw.insert(r.randint(0, len(rw)) if r.random() < 0.5 else sum(1 for c, _ in rw if c < i), (i, D))
+            rows.append(rw)
+        if not ok: continue
+        return rows, v, lam
+    return None
+
+def specrad_cases(tier, seed):
+    r = random.Random(seed * 1000 + 808)
+    quick = tier == "quick"
+    out = []
+    def add(op, *parts): out.append("sr.%d %s %s" % (len(out), op, " ".join(str(p) for p in parts)))
+    # ---------------- power method
+    NP = 400 if quick else 3000
+    for it in range(NP):
+        kind = r.choice(["spd", "spd", "dd", "rank1", "random", "random_diag", "nodiag", "refl", "zero", "tiny"])
+        n = r.choice([1, 2, 2, 3, 3, 4, 5, 6, 8]) if quick else r.choice([1, 2, 3, 4, 5, 6, 8, 10, 12])
+        scale = r.choice([0, 1])
+        if kind == "spd": rows = gen.spd_mmatrix(r, n)
+        elif kind == "dd": rows = gen.nonsym_dd(r, n)
+        elif kind == "rank1":
+            n = min(n, 5); u = [gen.rq(r, nz=True) for _ in range(n)]; c = r.choice([F(1), F(-2), F(1, 2), F(3)])
+            rows = _dense_to_rows(r, [[c * u[i] * u[j] for j in range(n)] for i in range(n)], shuffle=(r.random() < 0.5))
+        elif kind == "random": rows = gen.rcrs(r, n, n, dups=(r.random() < 0.4)); scale = 0
+        elif kind == "random_diag": rows = gen.c08_with_diag(r, gen.rcrs(r, n, n, dups=(r.random() < 0.4)), n, zero_ok=False)
+        elif kind == "nodiag":      # rows without a diagonal entry: the thread-private dia survives from the row before
+            rows = gen.c08_with_diag(r, gen.rcrs(r, n, n), n, zero_ok=False)
+            rows = [[e for e in rw if not (e[0] == i and r.random() < 0.4)] for i, rw in enumerate(rows)]
+        elif kind == "refl": n = 2; rows = [[(0, F(3)), (1, F(4))], [(0, F(4)), (1, F(-3))]]; scale = 0
+        elif kind == "zero": rows = [[] for _ in range(n)] if r.random() < 0.5 else [[(i, F(0))] for i in range(n)]; scale = 0
+        else: n = r.choice([0, 1]); rows = [[(0, gen.rq(r, nz=True))]] * n
+        if r.random() < 0.3:
+            f = r.choice([F(10), F(1, 16), F(-3), F(100)]); rows = [[(c, f * x) for c, x in rw] for rw in rows]
+        if scale and kind in ("spd", "dd", "rank1", "random_diag") and any(all(c != i or x == 0 for c, x in rw) for i, rw in enumerate(rows)):
+            scale = 0          # scaling divides by the diagonal: keep it non-zero (the C++ asserts / divides by zero otherwise)
+        if scale and any(x == 0 for i, rw in enumerate(rows) for c, x in rw if c == i): scale = 0
+        iters = r.choice([1, 2, 2, 3, 3, 4, 5, 6]) if n <= 5 else r.choice([1, 2, 3, 4])
+        add("sr.power", scale, iters, crs(n, n, rows))
+    # ---------------- Gershgorin, scalar eigenpairs
+    NG = 450 if quick else 4000
+    for it in range(NG):
+        nt = r.choice([1, 1, 4])
+        if it % 3 == 0:
+            n = r.choice([1, 2, 3, 4])
+            A, pairs = _sr_eig_similar(r, n)
+            rows = _dense_to_rows(r, A, keep_zero=r.choice([0.0, 0.3]), shuffle=(r.random() < 0.5))
+            if r.random() < 0.3: rows = _split_dups(r, rows)
+            for lam, v in pairs[: (2 if quick else n)]:
+                add("sr.geig", 0, nt, crs(n, n, rows), fmt_vec(v), fmt_q(lam))
+        else:
+            n = r.choice([1, 2, 3, 4, 5, 6, 8]); scale = r.choice([0, 1])
+            g = _sr_eig_fit(r, n, scale, small_off=(r.random() < 0.6))
+            if g is None: continue
+            rows, v, lam = g
+            if not scale and r.random() < 0.25: rows = _split_dups(r, rows)
+            add("sr.geig", scale, nt, crs(n, n, rows), fmt_vec(v), fmt_q(lam))
+    # ---------------- Gershgorin, block eigenpairs
+    NB = 350 if quick else 3000
+    for it in range(NB):
+        b = r.choice([2, 2, 3]); nt = r.choice([1, 1, 4])
+        if it % 4 == 0:
+            n = r.choice([1, 2]) if b == 3 else r.choice([1, 2, 3])
+            A, pairs = _sr_eig_similar(r, n * b)
+            rows = [[(J, [[A[I * b + p][J * b + q] for q in range(b)] for p in range(b)]) for J in range(n)
+                     if any(A[I * b + p][J * b + q] != 0 for p in range(b) for q in range(b)) or r.random() < 0.2] for I in range(n)]
+            if r.random() < 0.4: rows = [list(reversed(rw)) for rw in rows]
+            for lam, v in pairs[:2]:
+                vb = [_bl_vec_block(v[I * b:(I + 1) * b], b) for I in range(n)]
+                add("sr.bgeig", b, 0, nt, bv.fmt_bcrs(n, n, rows), bv.fmt_blocks(vb), fmt_q(lam))
+        else:
+            n = r.choice([1, 2, 3, 4]); scale = r.choice([0, 1])
+            g = _sr_beig_fit(r, b, n, scale, small_off=(r.random() < 0.6))
+            if g is None: continue
+            rows, v, lam = g
+            add("sr.bgeig", b, scale, nt, bv.fmt_bcrs(n, n, rows), bv.fmt_blocks([_bl_vec_block(x, b) for x in v]), fmt_q(lam))
+    return out
+
+
+def run_specrad(ctx, lines=None):
+    """stage 'specrad': see the comment block above.  lines: replayed case lines (default: generated)"""
+    import vcheck
+    lines = lines if lines is not None else specrad_cases(ctx["tier"], ctx["seed"])
+    if not lines: return []
+    try:
+        sr_model = vcheck.build_model(ctx["log"], "specrad")
+    except Exception as e:
+        return [dict(kind="broken-model-build", case=None, has_input=False, op="specrad", size=0,
+                     theorem="Extract_specrad.v / ocaml/specrad (oracle driver of the spectral-radius clauses)", oracle=str(e)[-2000:])]
+    ctx2 = dict(ctx); ctx2["model"] = sr_model
+    by_id = {l.split(" ", 1)[0]: l for l in lines}
+    fails = []
+    env1 = {"OMP_NUM_THREADS": "1", "OMP_DYNAMIC": "false", "OMP_WAIT_POLICY": "passive", "GOMP_SPINCOUNT": "0"}
+    # ---- power method
+    pw = [l for l in lines if l.split(" ", 2)[1] == "sr.power"]
+    if pw:
+        parsed = {}
+        for l in pw:
+            cid, _, payload = l.split(" ", 2); c = Cur(payload)
+            sc_ = c.tok(); it = c.tok(); a = c.crs(); parsed[cid] = (sc_, it, a, c.dims(a)[0])
+        ns = sorted({p[3] for p in parsed.values()})
+        st = ctx["run_driver"](ctx["cpp"]["matops"], ["s%d pm_start %d" % (n, n) for n in ns], env_extra=env1, shards=1)
+        start = {}
+        for n in ns:
+            try: start[n] = fmt_vec(parse_out_vec(st.get("s%d" % n, "[]")))
+            except Exception: start[n] = "0"
+        impl_lines = ["%s specrad_power %s %s %s" % (cid, p[0], p[1], p[2]) for cid, p in parsed.items()]
+        model_lines = ["%s sr.power %s %s %s %s" % (cid, p[0], p[1], p[2], start[p[3]]) for cid, p in parsed.items()]
+        f, impl, model = diff_run(ctx2, "matops", impl_lines, env=env1, shards=16, model_lines=model_lines)
+        for x in f:
+            cid = x["case"].split(" ", 1)[0]; x["case"] = by_id[cid]
+            x["theorem"] = "correspondence drv_matops specrad_power (more sweeps / matrices) vs MatOps2.spectral_radius_power"
+        fails += f
+        olines = []
+        for cid, p in parsed.items():
+            o = impl.get(cid)
+            if o is None or o.startswith(("EXC", "CRASH", "UNSUPPORTED", "BADCRS")): continue
+            olines.append("%s sr.o.power %s %s %s %s %s" % (cid, p[0], p[1], p[2], start[p[3]], o.strip()))
+        of = oracle_run(ctx2, olines, "C08_power_oracle_accepts_model / C08_power_method_bound_any_root: the power-method "
+                        "estimate r of the implementation violates 0 <= r, r^2 <= ||A||_F^2 t^2 (never above the largest singular value)",
+                        lambda cid: by_id[cid])
+        for x in of: x["impl"] = impl.get(x["case"].split(" ", 1)[0])
+        fails += of
+    # ---- Gershgorin: scalar and block eigenpairs, per thread count
+    for op, drv in (("sr.geig", "matops"), ("sr.bgeig", "matops_block")):
+        gl = [l for l in lines if l.split(" ", 2)[1] == op]
+        groups = {}
+        for l in gl:
+            cid, _, payload = l.split(" ", 2); t = bv.Toks(payload)
+            if op == "sr.geig":
+                sc_ = t.i(); nt = t.i(); st_ = t.p; n, m, rows = t.crs(); a = " ".join(t.t[st_:t.p]); rest = " ".join(t.t[t.p:])
+                il = "%s specrad %d %d %s" % (cid, sc_, nt, a); head = "%d %s" % (sc_, a)
+            else:
+                b = t.i(); sc_ = t.i(); nt = t.i(); st_ = t.p; n, m, rows = t.bcrs(b); a = " ".join(t.t[st_:t.p]); rest = " ".join(t.t[t.p:])
+                il = "%s bm.specrad %d %d %d %s" % (cid, b, sc_, nt, a); head = "%d %d %s" % (b, sc_, a)
+            groups.setdefault(nt, []).append((cid, il, head, rest))
+        for nt in sorted(groups):
+            env = dict(env1); env["OMP_NUM_THREADS"] = str(nt)
+            ils = [g[1] for g in groups[nt]]
+            impl = ctx["run_driver"](ctx["cpp"][drv], ils, env_extra=env, shards=(16 if nt <= 2 else 6))
+            from props.common import account
+            account(ctx, ils, impl)
+            olines = []
+            for cid, il, head, rest in groups[nt]:
+                o = impl.get(cid)
+                if o is None or o.startswith(("EXC", "CRASH", "UNSUPPORTED", "BADCRS", "UNKNOWN")):
+                    fails.append(dict(kind="counterexample", case=by_id[cid], impl=o, model=None, op=op, size=len(by_id[cid]),
+                                      theorem="spectral_radius (Gershgorin) raised / crashed on a matrix with a constructed eigenpair"))
+                    continue
+                olines.append("%s %s %s %s %s" % (cid, op.replace("sr.", "sr.o."), head, rest, o.strip()))
+            of = oracle_run(ctx2, olines, ("C08_gershgorin_eigenpair_oracle_Qc" if op == "sr.geig" else "C08_block_gershgorin_bound(_scaled)") +
+                            ": the Gershgorin estimate of the implementation is below |lambda| for a constructed eigenpair "
+                            "(OMP_NUM_THREADS=%d)" % nt, lambda cid: by_id[cid])
+            for x in of: x["impl"] = impl.get(x["case"].split(" ", 1)[0])
+            fails += of
+    return fails
+
+TRUSTED_BASE.append("spectral-radius stage: coq/Extract_specrad.v + ocaml/specrad/ops_specrad.ml (oracle / model driver group 'specrad'); the eigenpair "
+                    "generators of tools/props/C08.py only propose cases: every pair is re-checked exactly by the extracted eig_check / beig_check")
+ASSUMPTIONS.append("spectral-radius oracles: vq::Q and QcS share the floor square root on the 2^-64 grid (C08_qc_sqrt_grid is about QcS; the byte-for-byte "
+                   "tie of the estimates carries it over); eigenpairs: lambda a base scalar, real base scalars; power method on one thread")
